@@ -45,6 +45,9 @@ Added probe families (helpers in harness/s5_c13.py):
  * blanks inside array brackets (mutant kinds `brackets`, `layout+brackets`; v1.pad_brackets, v1.BRACKET_PAIRS): blanks, tabs and comments
    without a newline around the count text of every `[...]` of the text — `a[ ]` is the null-terminated array `a[]`, `a[ 2 ]`, `a[ n & 3 ]`,
    `a[2][ ]`, `a[ EOF ]`; fields may now be null-terminated arrays (`f[]`) in every definition set.
+ * comment-only separators (mutant kind `comment-only`, v1.comment_only_sep): the white space between two tokens is REPLACED by one or two
+   block comments, so that a comment is all that separates them (`uint8/**/a`, `struct/*c*/S`, `a/**/:/**/3`); the comment scanner puts
+   one blank there (before the repair the comment vanished and the tokens fused).
  * definition parser correspondence (helpers in harness/v1_c13.py): for every baseline text and every mutant text the declaration list
    of the Lean model of the scanner and the declaration handlers (`CstructModel/DefParser.lean`, driver command `parsedecls`) is compared
    with the declarations recorded from the REAL parser (a recording subclass of `TokenParser`, nothing in /repo is changed), and the
@@ -269,7 +272,7 @@ def boundaries(tokens) -> int:
     return sum(1 for i, t in enumerate(tokens[:-1]) if not (isinstance(t, tuple) and t[0].endswith("\n")))
 
 
-def render(items, rnd=None, f20=False, rich=False, one=False, hits=None):
+def render(items, rnd=None, f20=False, rich=False, one=False, hits=None, sepgen=None):
     """rich: separators and comments from s5_c13 (comment bodies with //, /*, quotes, stars, slashes, newlines; adjacent
     comments; a comment before the first and after the last token); one: a single rich separator at one token boundary."""
     if rnd is None:
@@ -282,7 +285,7 @@ def render(items, rnd=None, f20=False, rich=False, one=False, hits=None):
             parts.append(join(it.tokens, rnd, enum=it.enum, sepgen=s5.rich_sep, only=k if 0 <= k < n else -1, hits=hits))
             k -= n
         return "\n".join(parts) + "\n"
-    sepgen = s5.rich_sep if rich else None
+    sepgen = sepgen or (s5.rich_sep if rich else None)   # sepgen: the caller's own separator family (comment-only)
     out = []
     if rich and rnd.random() < 0.5:
         out.append(rnd.choice([s5.block_comment(rnd), s5.line_comment(rnd), s5.block_comment(rnd) + s5.line_comment(rnd)]))
@@ -388,7 +391,7 @@ def toposort_variants(items, rnd, k):
 
 
 KINDS = ["layout", "layout", "layout", "order", "order+layout", "split", "one-comment", "one-comment", "layout-rich", "layout-rich", "order+layout-rich",
-         "order+split", "order", "brackets", "layout+brackets"]
+         "order+split", "order", "brackets", "layout+brackets", "comment-only", "comment-only"]
 
 
 def twin_features(items) -> list[str]:
@@ -618,6 +621,9 @@ def run(env) -> Result:
             hits = []
             if kind == "one-comment":
                 text = render(its, rnd, one=True, hits=hits)
+            elif kind == "comment-only":
+                # block comments INSTEAD of the white space between two tokens (`uint8/**/a`): a comment is all that separates them
+                text = render(its, rnd, hits=hits, sepgen=v1.comment_only_sep)
             else:
                 text = render(its, rnd if "layout" in kind else None, f20=f20, rich=rich, hits=hits)
             if "brackets" in kind:
@@ -656,7 +662,7 @@ def run(env) -> Result:
                 # the registered names, spelt exactly as in the tables (nothing is stripped on this side)
                 viol("inserting comments/whitespace or reordering independent definitions changed the registered names",
                      dict(cd, baseline_names=base_names, mutant_names=user_names(cs, dc)), "F20" if f20 else None)
-            if "layout" in kind or kind == "one-comment":
+            if "layout" in kind or kind in ("one-comment", "comment-only"):
                 lines.append(sx([A("stripcomments"), text]))
                 metas.append(("strip", text, dc.parser.TokenParser._remove_comments(text)))
     for base_text, mutant in v1.BRACKET_PAIRS:
